@@ -53,7 +53,7 @@ def gen_case(r, n=None):
     n = n or r.choice([1, 2, 2, 3, 3, 3, 4, 4, 5, 6, 7, 8, 10, 12, 16, 25, 40])
     kind = r.choice(['valid-1', 'valid-2', 'valid-3', 'valid-4', 'valid-5', 'valid-6', 'valid-float', 'valid-equal',
                      'valid-zeros', 'offsum-small', 'offsum-large', 'near-miss', 'missing-some', 'missing-all',
-                     'no-section', 'all-zero', 'negative-sum1', 'negative-other', 'huge', 'malformed'])
+                     'no-section', 'all-zero', 'negative-sum1', 'negative-other', 'huge', 'malformed', 'nonfinite'])
     ws = None
     if kind.startswith('valid-') and kind[6:].isdigit():
         k = int(kind[6:])
@@ -105,6 +105,11 @@ def gen_case(r, n=None):
             ws[0] = -0.3
     elif kind == 'huge':
         ws = [float(r.choice([1, 10, 1000, 1e6, 3])) for _ in range(n)]
+    elif kind == 'nonfinite':
+        # YAML '.nan' / '.inf' are floats and pass the schema; every comparison with NaN is false
+        ws = [p / 100.0 for p in split_int(r, 100, n)]
+        for i in r.sample(range(n), r.randint(1, min(n, 2))):
+            ws[i] = r.choice([float('nan'), float('nan'), float('inf'), float('-inf')])
     elif kind == 'malformed':
         ws = [p / 100.0 for p in split_int(r, 100, n)]
         i = r.randrange(n)
@@ -554,7 +559,7 @@ def main():
                    assumptions=[
                        "status-report keys are integers (string spellings 'N'/'stageN' pass the schema but are ignored by "
                        "the normaliser and make StatusMonitor raise TypeError in a log line - reported in the notes, not judged)",
-                       "NaN/inf weights are not generated; documents whose weights validate() rejects (strings, ints, "
+                       "NaN/inf weights are generated (kind 'nonfinite'); documents whose weights validate() rejects (strings, ints, "
                        "bools) are counted as rejected and not judged further",
                        "per-stage progress comes from the controller (no status executables); scenarios keep earlier "
                        "stages finished or in transit and later stages not started",
